@@ -332,6 +332,9 @@ func genHistory(t *Tape, k *Knobs, m mix, n int) []Step {
 			steps = append(steps, s)
 		case 7:
 			s := Step{Op: "introspect", C: t.Intn(2), G: t.Intn(60), V: t.Pick([]string{"", "hint_right", "hint_wrong", "hint_garbage"})}
+			if t.Chance(12) {
+				s.C = t.Intn(nc) // the caller may be any registered client - a public one proves nothing, whatever password accompanies its id
+			}
 			switch t.Intn(10) {
 			case 0:
 				s.A = "bad_secret"
